@@ -56,6 +56,12 @@ def exec_case(ctx, case):
         os.makedirs(os.path.dirname(db))
         gres = L.run_rfigc(['-i', root, '-d', db, '-g', '--silent'], os.path.join(D, 'cwd_gen'))
         S = os.path.join(D, 'scraped', case.get('sroot', 'S'))
+        O = os.path.join(D, 'out', case.get('oroot', 'O'))
+        if case.get('layout') == 'sibling':
+            # the two folders side by side, the scraped one NAMED AFTER the output one (PhotoRec's recup_dir.1 next to a folder
+            # "recup"): its path starts with the output path as a STRING but lies outside it
+            O = os.path.join(D, 'work', case.get('oroot', 'O'))
+            S = O + '_dir.1'
         os.makedirs(S)
         for rel, src, mt in case['scraped']:
             p = os.path.join(S, rel)
@@ -65,8 +71,26 @@ def exec_case(ctx, case):
             if mt is not None:
                 os.utime(p, ns=(mt, mt))
         S0 = L.scan_tree(S)
-        O = os.path.join(D, 'out', case.get('oroot', 'O'))
         os.makedirs(O)
+        if case.get('prefill'):
+            # the output folder already holds, at recorded paths whose content WILL be found, a file of the recorded size (and, for
+            # 'mtime', the recorded time) with other bytes — recovering into the rotten archive itself, or over an earlier attempt:
+            # the statement wants the recorded bytes and time there afterwards
+            present0 = {d for d, _ in S0.values()}
+            for dp, _, fs in os.walk(root):
+                for fn in fs:
+                    src = os.path.join(dp, fn)
+                    rel = os.path.relpath(src, root)
+                    b = bytearray(open(src, 'rb').read())
+                    if not b or T0.get(rel.replace(os.sep, '/'), (None,))[0] not in present0:
+                        continue
+                    b[len(b) // 2] ^= 0x10
+                    dst = os.path.join(O, rel)
+                    os.makedirs(os.path.dirname(dst), exist_ok=True)
+                    open(dst, 'wb').write(bytes(b))
+                    if case['prefill'] == 'mtime':
+                        st = os.stat(src)
+                        os.utime(dst, ns=(st.st_atime_ns, st.st_mtime_ns))
         cwd = os.path.join(D, 'cwd_run')
         args = ['-i', S, '-d', db, '--filescraping_recovery', '-o', O, '--silent'] + (['-v'] if common.every_fourth(case) else [])
         if case.get('log', True):
@@ -201,8 +225,14 @@ def gen_case(rng, stream):
     if have_empty is False and rng.random() < 0.1:
         scraped.append([fresh('flat'), ['u', 1, 0], None])        # an unknown empty file
     rng.shuffle(scraped)
-    return {'root': rng.choice(['T', 'ro ot', 'r|"é']), 'sroot': rng.choice(['S', 's cr|"ü']), 'oroot': rng.choice(['O', 'o ut"|ß']),
+    case = {'root': rng.choice(['T', 'ro ot', 'r|"é']), 'sroot': rng.choice(['S', 's cr|"ü']), 'oroot': rng.choice(['O', 'o ut"|ß']),
             'files': files, 'scraped': scraped, 'stream': stream, 'log': rng.random() < 0.7}
+    r = rng.random()                      # drawn last: the cases of earlier seeds keep their trees
+    if r < 0.12:
+        case['layout'] = 'sibling'
+    elif r < 0.3 and stream != 'dups':
+        case['prefill'] = rng.choice(['mtime', 'now'])
+    return case
 
 
 def corpus():
@@ -236,6 +266,10 @@ def corpus():
     # recorded times at and next to the Unix epoch (reproducible archives, container layers): 0.0 is a time like any other
     ep = [f('layer/etc/hostname', ['r', 8, 33], 0), f('layer/etc/motd', ['r', 9, 12], 1), f('readme', ['r', 10, 40], 0, 500_000_000)]
     out.append({'root': 'T', 'files': ep, 'scraped': [['dump/%d.chk' % i, ['o', i], None] for i in range(3)]})
+    # folder layouts and a used output folder (see exec_case)
+    out.append({'root': 'T', 'files': base, 'scraped': flat, 'layout': 'sibling', 'oroot': 'recup'})
+    out.append({'root': 'T', 'files': base, 'scraped': flat, 'prefill': 'mtime'})
+    out.append({'root': 'T', 'files': base, 'scraped': flat[:3], 'prefill': 'now'})
     return out
 
 
@@ -260,7 +294,7 @@ def account(ctx, case, r):
 
 def run(ctx):
     from props import cli_proc
-    cli_proc.stream(ctx, ['C17'])
+    cli_proc.stream(ctx, ['C17', 'C17@rfigc'])
     rng = ctx.rng
     for case in corpus():
         account(ctx, case, exec_case(ctx, case))
